@@ -151,6 +151,7 @@ static int real_main(int argc, char** argv)
     go.thorough = arg(argc, argv, "--tier", "quick") == "thorough";
     go.force_family = std::atoi(arg(argc, argv, "--family", "-1").c_str());
     go.no_faults = flag(argc, argv, "--no-faults");
+    go.no_edge_preemption = flag(argc, argv, "--no-edge-preemption");
     go.single_shot = flag(argc, argv, "--single-shot");
     const bool no_regime_skip = flag(argc, argv, "--no-regime-skip");
     const int force_vclass = std::atoi(arg(argc, argv, "--vclass", "-1").c_str());
@@ -261,6 +262,7 @@ static int real_main(int argc, char** argv)
                 {
                     failing.explicit_schedule = true;
                     failing.schedule = out.executed_schedule;
+                    failing.gaps = out.executed_gaps;
                 }
                 for (auto& v : out.viol)
                     if (v.cls() == cls && v.params.type == Json::Obj && !v.params.o.empty())
